@@ -2,6 +2,7 @@
 #include "common.h"
 #include <tbox/util/scalable_integer.h>
 #include <tbox/util/serializer.h>
+#include <memory>
 using namespace c19;
 
 // ================================================================== scalable integer
@@ -71,88 +72,197 @@ void sweep_sint() {
 }
 
 // ================================================================== Serializer / Deserializer
+// Closed system: one Serializer (raw buffer of capacity {exact, exact-1, 0} or a growing vector) and one Deserializer over the
+// reference bytes (size {exact, exact-1, 0}), driven by a sequence of items:
+//   u8 u16 u32 u64 blob                 through three API families (append/fetch, appendPOD/fetchPOD/fetchNoCopy, operator<< >>)
+//   SWITCH                              mid-stream endian change: setEndian(e) (returned old value checked) or `s << e` / `d >> e`
+//   i8 i16 i32 i64 f32 f64              the signed / float / double stream operators (bit patterns compared through memcpy)
+// constructed with Endian::kBig, Endian::kLittle or WITHOUT an endian argument (header: defaults to big).
+// Model: a byte vector + position + current endian; a request succeeds iff pos + width <= capacity and a refused request
+// changes nothing.  At every position of the Deserializer walk hostile requests are made as well: checkSize/skip/fetchNoCopy/
+// fetch/fetchPOD of rest+1, rest+2, 2^63, SIZE_MAX, SIZE_MAX-pos+k (k=0..2: pos+n wraps to k-1) must be refused and leave pos alone;
+// set_pos(p) for p in {0,pos,size-1,size,size+1,SIZE_MAX} succeeds iff p < size (header/impl contract), then reads come from p.
 using tbox::util::Serializer; using tbox::util::Deserializer; using tbox::util::Endian;
-enum { F8, F16, F32, F64, FBLOB, NF };
-static const char *kF[] = {"u8", "u16", "u32", "u64", "blob"};
-struct Field { int kind; uint64_t v; std::vector<uint8_t> blob; size_t width() const { return kind == F8 ? 1 : kind == F16 ? 2 : kind == F32 ? 4 : kind == F64 ? 8 : blob.size(); } };
+enum { F8, F16, F32, F64, FBLOB, FSW, NF_BASE, FI8 = NF_BASE, FI16, FI32, FI64, FFLT, FDBL, NF_ALL };
+static const char *kF[] = {"u8", "u16", "u32", "u64", "blob", "SWITCH", "i8", "i16", "i32", "i64", "f32", "f64"};
+static const char *kCfg[] = {"BE", "LE", "default(BE)"};
+static const char *kApi[] = {"append/fetch", "POD/NoCopy", "stream<<>>"};
+struct Field { int kind; uint64_t v; std::vector<uint8_t> blob;
+  size_t width() const { switch (kind) { case F8: case FI8: return 1; case F16: case FI16: return 2; case F32: case FI32: case FFLT: return 4; case F64: case FI64: case FDBL: return 8; case FSW: return 0; default: return blob.size(); } } };
 static void ref_put(std::vector<uint8_t> &o, const Field &f, bool big) {
+  if (f.kind == FSW) return;
   if (f.kind == FBLOB) { o.insert(o.end(), f.blob.begin(), f.blob.end()); return; }
   size_t w = f.width(); for (size_t i = 0; i < w; i++) { size_t sh = big ? (w - 1 - i) * 8 : i * 8; o.push_back((uint8_t)(f.v >> sh)); } }
-static std::string seq_str(const std::vector<Field> &fs, bool big, int vs, int api) {
-  std::string s = big ? "BE[" : "LE["; for (auto &f : fs) { s += kF[f.kind]; if (f.kind == FBLOB) s += "(" + std::to_string(f.blob.size()) + ")"; s += " "; } return s + "] valueset=" + std::to_string(vs) + " api=" + (api == 0 ? "append/fetch" : api == 1 ? "POD/NoCopy" : "stream<<>>"); }
-static bool ser_append(Serializer &s, const Field &f, int api) {
+static uint64_t ref_get(const uint8_t *p, size_t w, bool big) { uint64_t v = 0; for (size_t i = 0; i < w; i++) { size_t sh = big ? (w - 1 - i) * 8 : i * 8; v |= (uint64_t)p[i] << sh; } return v; }
+static std::string seq_str(const std::vector<Field> &fs, int cfg, int vs, int api) {
+  std::string s = std::string(kCfg[cfg]) + "["; for (auto &f : fs) { s += kF[f.kind]; if (f.kind == FBLOB) s += "(" + std::to_string(f.blob.size()) + ")"; s += " "; } return s + "] valueset=" + std::to_string(vs) + " api=" + kApi[api]; }
+static Endian en_of(bool big) { return big ? Endian::kBig : Endian::kLittle; }
+static bool g_ser_huge = false;   // C19_SER_HUGE_APPEND=1: also ask the Serializer to append blobs whose claimed length makes pos+len wrap (see the final report of the strengthening pass)
+
+// one item on the serializer; `big` is the model's current endian (flipped by SWITCH).  Returns "accepted".
+static bool ser_put(Serializer &s, const Field &f, int api, bool &big, std::string &err) {
+  const size_t p0 = s.pos();
   switch (f.kind) {
-    case F8: return s.append((uint8_t)f.v);
-    case F16: { uint16_t v = (uint16_t)f.v; return api == 1 ? s.appendPOD(&v, 2) : s.append(v); }
-    case F32: { uint32_t v = (uint32_t)f.v; return api == 1 ? s.appendPOD(&v, 4) : s.append(v); }
-    case F64: { uint64_t v = f.v; return api == 1 ? s.appendPOD(&v, 8) : s.append(v); }
-    default: { Ex b(f.blob.data(), f.blob.size()); return s.append(b.p, f.blob.size()); } } }
-static void ser_case(const std::vector<Field> &fs, bool big, int vs, int api) {
+    case FSW: { const Endian ne = en_of(!big);
+      if (api == 2) s << ne; else { Endian old = s.setEndian(ne); if (old != en_of(big)) err = "serializer-setEndian-returns-wrong-old-value"; }
+      big = !big; return true; }
+    case FBLOB: { Ex b(f.blob.data(), f.blob.size()); return s.append(b.p, f.blob.size()); }
+    case F8: if (api == 2) { s << (uint8_t)f.v; return s.pos() != p0; } return s.append((uint8_t)f.v);
+    case F16: { uint16_t v = (uint16_t)f.v; if (api == 2) { s << v; return s.pos() != p0; } return api == 1 ? s.appendPOD(&v, 2) : s.append(v); }
+    case F32: { uint32_t v = (uint32_t)f.v; if (api == 2) { s << v; return s.pos() != p0; } return api == 1 ? s.appendPOD(&v, 4) : s.append(v); }
+    case F64: { uint64_t v = f.v; if (api == 2) { s << v; return s.pos() != p0; } return api == 1 ? s.appendPOD(&v, 8) : s.append(v); }
+    case FI8: s << (int8_t)(uint8_t)f.v; break;
+    case FI16: s << (int16_t)(uint16_t)f.v; break;
+    case FI32: s << (int32_t)(uint32_t)f.v; break;
+    case FI64: s << (int64_t)f.v; break;
+    case FFLT: { uint32_t b = (uint32_t)f.v; float x; memcpy(&x, &b, 4); s << x; } break;
+    default: { uint64_t b = f.v; double x; memcpy(&x, &b, 8); s << x; } break;
+  }
+  return s.pos() != p0;
+}
+// one item on the deserializer.  ok = accepted; got = value read (scalars) ; same = output as the model demands
+static void des_get(Deserializer &d, const Field &f, int api, bool &big, const uint8_t *base, size_t pos, bool fit, bool &ok, bool &same, std::string &err) {
+  const size_t p0 = d.pos(), w = f.width(); const uint64_t S = 0x5A5A5A5A5A5A5A5Aull;
+  const uint64_t mask = w >= 8 ? ~0ull : ((1ull << (8 * w)) - 1);
+  const uint64_t want = (fit && f.kind != FBLOB && f.kind != FSW) ? ref_get(base + pos, w, big) : 0;   // decided by the reference bytes at the model position
+  uint64_t got = 0; ok = false; same = true;
+  switch (f.kind) {
+    case FSW: { const Endian ne = en_of(!big);
+      if (api == 2) d >> ne; else { Endian old = d.setEndian(ne); if (old != en_of(big)) err = "deserializer-setEndian-returns-wrong-old-value"; }
+      big = !big; ok = true; return; }
+    case FBLOB: { Ex o(w, 0x5A);
+      if (api == 1) { const void *p = d.fetchNoCopy(w); ok = p != nullptr; same = !ok || (p == base + pos && (w == 0 || !fit || memcmp(p, f.blob.data(), w) == 0)); }
+      else { ok = d.fetch(o.p, w); if (ok) same = (w == 0 || !fit || memcmp(o.p, base + pos, w) == 0); else for (size_t j = 0; j < w; j++) same &= (o.p[j] == 0x5A); }
+      return; }
+    case F8: { uint8_t v = (uint8_t)S; if (api == 2) { d >> v; ok = d.pos() != p0; } else ok = d.fetch(v); got = v; } break;
+    case F16: { uint16_t v = (uint16_t)S; if (api == 2) { d >> v; ok = d.pos() != p0; } else ok = api == 1 ? d.fetchPOD(&v, 2) : d.fetch(v); got = v; } break;
+    case F32: { uint32_t v = (uint32_t)S; if (api == 2) { d >> v; ok = d.pos() != p0; } else ok = api == 1 ? d.fetchPOD(&v, 4) : d.fetch(v); got = v; } break;
+    case F64: { uint64_t v = S; if (api == 2) { d >> v; ok = d.pos() != p0; } else ok = api == 1 ? d.fetchPOD(&v, 8) : d.fetch(v); got = v; } break;
+    case FI8: { int8_t v = (int8_t)(uint8_t)S; d >> v; ok = d.pos() != p0; got = (uint8_t)v; } break;
+    case FI16: { int16_t v = (int16_t)(uint16_t)S; d >> v; ok = d.pos() != p0; got = (uint16_t)v; } break;
+    case FI32: { int32_t v = (int32_t)(uint32_t)S; d >> v; ok = d.pos() != p0; got = (uint32_t)v; } break;
+    case FI64: { int64_t v = (int64_t)S; d >> v; ok = d.pos() != p0; got = (uint64_t)v; } break;
+    case FFLT: { uint32_t b = (uint32_t)S; float x; memcpy(&x, &b, 4); d >> x; ok = d.pos() != p0; memcpy(&b, &x, 4); got = b; } break;
+    default: { uint64_t b = S; double x; memcpy(&x, &b, 8); d >> x; ok = d.pos() != p0; memcpy(&b, &x, 8); got = b; } break;
+  }
+  same = ok ? (fit && got == want) : got == (S & mask);
+}
+// hostile size requests and set_pos at model position `pos` of a Deserializer over in[0..size).  false = a violation was reported (stop this walk)
+static bool des_probe(Deserializer &d, const uint8_t *base, size_t size, size_t pos, const std::string &ss) {
+  const size_t rest = size - pos; const std::string at = ss + " size=" + std::to_string(size) + " pos=" + std::to_string(pos);
+  const size_t cand[] = {rest + 1, rest + 2, (size_t)1 << 63, SIZE_MAX, SIZE_MAX - pos, SIZE_MAX - pos + 1, SIZE_MAX - pos + 2};
+  Guard g("Deserializer.oversize-request", base, size, (long)size);
+  for (size_t n : cand) { if (n <= rest) continue;                  // (SIZE_MAX - pos + k wraps to a legal small request when pos < k)
+    C.executions += 5; const std::string ns = " request=" + (n > ((size_t)1 << 62) ? "SIZE_MAX-" + std::to_string(SIZE_MAX - n) : std::to_string(n));
+    const char *bad = nullptr;
+    if (d.checkSize(n)) bad = "checkSize";
+    else if (d.skip(n)) bad = "skip";
+    else if (d.pos() != pos) bad = "skip(pos moved)";
+    else if (d.fetchNoCopy(n) != nullptr) bad = "fetchNoCopy";
+    else if (d.pos() != pos) bad = "fetchNoCopy(pos moved)";
+    else { Ex o(1, 0x5A);                                             // only reached when checkSize refused: an accepted copy of n bytes would be fatal
+      if (d.fetch(o.p, n)) bad = "fetch"; else if (d.fetchPOD(o.p, n)) bad = "fetchPOD"; else if (d.pos() != pos || o.p[0] != 0x5A) bad = "fetch(pos moved or output written)"; }
+    if (g.hit()) { viol(generic_san_sig("deserializer-oversize-request"), at + ns + " " + Guard::desc()); return false; }
+    if (bad) { viol(n > ((size_t)1 << 62) ? "deserializer-accepts-request-whose-end-wraps-around" : "deserializer-accepts-request-beyond-size", at + ns + " accepted by " + bad); return false; } }
+  const size_t ps[] = {0, pos, size - 1, size, size + 1, SIZE_MAX}; bool moved = false; size_t cur = pos;
+  for (size_t p : ps) { C.executions++; const bool want = p < size; const bool r = d.set_pos(p); const std::string pstr = " set_pos(" + (p == SIZE_MAX ? std::string("SIZE_MAX") : std::to_string(p)) + ")";
+    if (r != want) { viol(want ? "deserializer-set_pos-refuses-position-inside-input" : "deserializer-set_pos-accepts-position-outside-input", at + pstr); return false; }
+    if (!r) { if (d.pos() != cur) { viol("deserializer-set_pos-refused-but-moved", at + pstr); return false; } continue; }
+    moved = true; uint8_t v = 0x5A; const bool pok = d.pos() == p && d.ptr() == base + p && d.checkSize(size - p) && !d.checkSize(size - p + 1);
+    if (!pok || !d.fetch(v) || v != base[p] || d.pos() != p + 1) { viol("deserializer-read-after-set_pos-wrong", at + pstr + " pos()=" + std::to_string(d.pos())); return false; }
+    cur = p + 1; }
+  if (moved) { bool back = pos < size ? d.set_pos(pos) : (d.set_pos(0) && d.skip(size)); if (!back || d.pos() != pos) { viol("deserializer-set_pos-cannot-return", at); return false; } }   // pos == size is reachable by reading only
+  else if (d.pos() != pos) { viol("deserializer-set_pos-refused-but-moved", at); return false; }
+  if (g.hit()) { viol(generic_san_sig("deserializer-set_pos"), at + " " + Guard::desc()); return false; }
+  return true;
+}
+static void ser_case(const std::vector<Field> &fs, int cfg, int vs, int api) {
   C.states++;
-  std::vector<uint8_t> want; for (auto &f : fs) ref_put(want, f, big);
-  const size_t total = want.size(); const Endian en = big ? Endian::kBig : Endian::kLittle;
-  const std::string ss = seq_str(fs, big, vs, api);
+  const bool big0 = cfg != 1;                                    // cfg 2: constructed without an endian argument = big (serializer.h)
+  std::vector<uint8_t> want; { bool b = big0; for (auto &f : fs) { if (f.kind == FSW) b = !b; else ref_put(want, f, b); } }
+  const size_t total = want.size();
+  const std::string ss = seq_str(fs, cfg, vs, api);
   // ---- raw mode, capacity exact / exact-1 / 0
   long caps[3] = {(long)total, (long)total - 1, 0};
   for (int ci = 0; ci < 3; ci++) { long cap = caps[ci]; if (cap < 0 || (ci == 2 && total <= 1)) continue;
-    C.transitions++; Ex out((size_t)cap, 0xCC); Serializer s(out.p, (size_t)cap, en);
-    size_t pos = 0; std::vector<uint8_t> model;   // model: an append succeeds iff pos + width <= cap, a failed append changes nothing
-    for (size_t i = 0; i < fs.size(); i++) { bool fit = pos + fs[i].width() <= (size_t)cap;
+    C.transitions++; Ex out((size_t)cap, 0xCC);
+    std::unique_ptr<Serializer> sp(cfg == 2 ? new Serializer(out.p, (size_t)cap) : new Serializer(out.p, (size_t)cap, en_of(big0))); Serializer &s = *sp;
+    size_t pos = 0; std::vector<uint8_t> model; bool big = big0;   // model: an append succeeds iff pos + width <= cap, a failed append changes nothing
+    for (size_t i = 0; i < fs.size(); i++) { bool fit = pos + fs[i].width() <= (size_t)cap; const bool bigv = fs[i].kind == FSW ? !big : big; std::string err;
+      const std::string fstr = ss + " field#" + std::to_string(i) + " cap=" + std::to_string(cap);
+      if (g_ser_huge && pos >= 1) {   // default off: the capacity gate itself (protected extendSize(); side-effect free in raw mode) asked for a length whose end wraps
+        const size_t ns[3] = {SIZE_MAX, SIZE_MAX - pos + 1, SIZE_MAX - pos + 2}; bool bad = false;
+        for (size_t n : ns) { C.executions++; if (s.extendSize(n)) { viol("serializer-accepts-append-whose-end-wraps-around", fstr + " pos=" + std::to_string(pos) + " len=SIZE_MAX-" + std::to_string(SIZE_MAX - n)); bad = true; break; } }
+        if (bad) break; }
       Guard g("Serializer.append(raw)", want.data(), total, cap);
-      bool ok = ser_append(s, fs[i], api);
-      if (g.hit()) viol(generic_san_sig(std::string("serializer-append-") + kF[fs[i].kind]) + (fit ? "" : "-no-room"), ss + " field#" + std::to_string(i) + " cap=" + std::to_string(cap) + " " + Guard::desc());
-      if (ok != fit) { viol(std::string("serializer-append-") + (fit ? "refused-although-room" : "accepted-without-room"), ss + " field#" + std::to_string(i) + " cap=" + std::to_string(cap)); break; }
-      if (fit) { ref_put(model, fs[i], big); pos += fs[i].width(); }
-      if (s.pos() != pos) { viol("serializer-pos-wrong", ss + " field#" + std::to_string(i) + " cap=" + std::to_string(cap) + " pos=" + std::to_string(s.pos())); break; } }
-    if (model.size() <= (size_t)cap && memcmp(out.p, model.data(), model.size()) != 0) viol(std::string("serializer-bytes-wrong-") + (big ? "big" : "little") + "-endian", ss + " cap=" + std::to_string(cap) + " got=" + hexs(out.p, model.size()) + " want=" + hexs(model.data(), model.size()));
+      bool ok = ser_put(s, fs[i], api, big, err);
+      if (g.hit()) viol(generic_san_sig(std::string("serializer-append-") + kF[fs[i].kind]) + (fit ? "" : "-no-room"), fstr + " " + Guard::desc());
+      if (!err.empty()) { viol(err, fstr); break; }
+      if (ok != fit) { viol(std::string("serializer-append-") + (fit ? "refused-although-room" : "accepted-without-room"), fstr); break; }
+      if (fit) { ref_put(model, fs[i], bigv); pos += fs[i].width(); }
+      if (s.pos() != pos) { viol("serializer-pos-wrong", fstr + " pos=" + std::to_string(s.pos())); break; } }
+    if (model.size() <= (size_t)cap && memcmp(out.p, model.data(), model.size()) != 0) viol(std::string("serializer-bytes-wrong-") + (big0 ? "big" : "little") + "-endian", ss + " cap=" + std::to_string(cap) + " got=" + hexs(out.p, model.size()) + " want=" + hexs(model.data(), model.size()));
     for (size_t i = model.size(); i < (size_t)cap; i++) if (out.p[i] != 0xCC) { viol("serializer-writes-beyond-pos", ss + " cap=" + std::to_string(cap)); break; }
   }
-  // ---- vector mode (api 2: stream operators)
-  { C.transitions++; std::vector<uint8_t> blk; Serializer s(blk, en);
+  // ---- vector mode
+  { C.transitions++; std::vector<uint8_t> blk;
+    std::unique_ptr<Serializer> sp(cfg == 2 ? new Serializer(blk) : new Serializer(blk, en_of(big0))); Serializer &s = *sp; bool big = big0; std::string err;
     Guard g("Serializer.append(vector)", want.data(), total);
-    for (auto &f : fs) { if (api == 2 && f.kind != FBLOB) { switch (f.kind) { case F8: s << (uint8_t)f.v; break; case F16: s << (uint16_t)f.v; break; case F32: s << (uint32_t)f.v; break; default: s << (uint64_t)f.v; } }
-                         else if (!ser_append(s, f, api)) viol("serializer-vector-append-refused", ss); }
+    for (auto &f : fs) { if (!ser_put(s, f, api, big, err) && f.width() != 0) viol("serializer-vector-append-refused", ss); if (!err.empty()) { viol(err, ss + " mode=vector"); break; } }
     if (g.hit()) viol(generic_san_sig("serializer-append-vector"), ss + " " + Guard::desc());
-    if (blk != want || s.pos() != total) viol(std::string("serializer-bytes-wrong-") + (big ? "big" : "little") + "-endian", ss + " mode=vector got=" + hexs(blk.data(), blk.size()) + " want=" + hexs(want.data(), total)); }
+    if (blk != want || s.pos() != total) viol(std::string("serializer-bytes-wrong-") + (big0 ? "big" : "little") + "-endian", ss + " mode=vector got=" + hexs(blk.data(), blk.size()) + " want=" + hexs(want.data(), total)); }
   // ---- Deserializer over the reference bytes, size exact / exact-1 / 0
   for (int ci = 0; ci < 3; ci++) { long cap = caps[ci]; if (cap < 0 || (ci == 2 && total <= 1)) continue;
-    C.transitions++; Ex in(want.data(), (size_t)cap); Deserializer d(in.p, (size_t)cap, en); size_t pos = 0;
-    for (size_t i = 0; i < fs.size(); i++) { const Field &f = fs[i]; bool fit = pos + f.width() <= (size_t)cap; bool ok = false, same = true;
+    C.transitions++; Ex in(want.data(), (size_t)cap);
+    std::unique_ptr<Deserializer> dp(cfg == 2 ? new Deserializer(in.p, (size_t)cap) : new Deserializer(in.p, (size_t)cap, en_of(big0))); Deserializer &d = *dp;
+    size_t pos = 0; bool big = big0, alive = true;
+    if (d.start() != in.p || d.size() != (size_t)cap || d.pos() != 0) viol("deserializer-accessors-wrong", ss + " size=" + std::to_string(cap));
+    for (size_t i = 0; i < fs.size() && alive; i++) { const Field &f = fs[i]; bool fit = pos + f.width() <= (size_t)cap; bool ok = false, same = true; std::string err;
+      const std::string fstr = ss + " field#" + std::to_string(i) + " size=" + std::to_string(cap);
+      if (!des_probe(d, in.p, (size_t)cap, pos, ss)) { alive = false; break; }
+      const bool bigv = big;
       Guard g("Deserializer.fetch", want.data(), (size_t)cap, cap);
-      switch (f.kind) {
-        case F8: { uint8_t v = 0x5A; if (api == 2) { d >> v; ok = d.pos() == pos + 1; } else ok = d.fetch(v); same = ok ? v == (uint8_t)f.v : v == 0x5A; } break;
-        case F16: { uint16_t v = 0x5A5A; if (api == 2) { d >> v; ok = d.pos() == pos + 2; } else ok = api == 1 ? d.fetchPOD(&v, 2) : d.fetch(v); same = ok ? v == (uint16_t)f.v : v == 0x5A5A; } break;
-        case F32: { uint32_t v = 0x5A5A5A5Au; if (api == 2) { d >> v; ok = d.pos() == pos + 4; } else ok = api == 1 ? d.fetchPOD(&v, 4) : d.fetch(v); same = ok ? v == (uint32_t)f.v : v == 0x5A5A5A5Au; } break;
-        case F64: { uint64_t v = 0x5A5A5A5A5A5A5A5Aull; if (api == 2) { d >> v; ok = d.pos() == pos + 8; } else ok = api == 1 ? d.fetchPOD(&v, 8) : d.fetch(v); same = ok ? v == f.v : v == 0x5A5A5A5A5A5A5A5Aull; } break;
-        default: { size_t w = f.blob.size(); Ex o(w, 0x5A);
-          if (api == 1) { const void *p = d.fetchNoCopy(w); ok = p != nullptr; same = !ok || (p == in.p + pos && (w == 0 || memcmp(p, f.blob.data(), w) == 0)); }
-          else { ok = d.fetch(o.p, w); if (ok) same = (w == 0 || memcmp(o.p, f.blob.data(), w) == 0); else for (size_t j = 0; j < w; j++) same &= (o.p[j] == 0x5A); } } }
-      if (g.hit()) viol(generic_san_sig(std::string("deserializer-fetch-") + kF[f.kind]) + (fit ? "" : "-no-room"), ss + " field#" + std::to_string(i) + " size=" + std::to_string(cap) + " " + Guard::desc());
-      if (ok != fit) { viol(std::string("deserializer-fetch-") + (fit ? "refused-although-room" : "accepted-beyond-size"), ss + " field#" + std::to_string(i) + " size=" + std::to_string(cap)); break; }
-      if (!same) { viol(std::string("deserializer-value-wrong-") + (big ? "big" : "little") + "-endian-" + kF[f.kind], ss + " field#" + std::to_string(i) + " size=" + std::to_string(cap) + (ok ? "" : " (output modified by failed fetch)")); break; }
+      des_get(d, f, api, big, in.p, pos, fit, ok, same, err);
+      if (g.hit()) viol(generic_san_sig(std::string("deserializer-fetch-") + kF[f.kind]) + (fit ? "" : "-no-room"), fstr + " " + Guard::desc());
+      if (!err.empty()) { viol(err, fstr); alive = false; break; }
+      if (ok != fit) { viol(std::string("deserializer-fetch-") + (fit ? "refused-although-room" : "accepted-beyond-size"), fstr); alive = false; break; }
+      if (!same) { viol(std::string("deserializer-value-wrong-") + (bigv ? "big" : "little") + "-endian-" + kF[f.kind], fstr + (ok ? "" : " (output modified by failed fetch)")); alive = false; break; }
       if (fit) pos += f.width();
-      if (d.pos() != pos) { viol("deserializer-pos-wrong", ss + " field#" + std::to_string(i) + " size=" + std::to_string(cap)); break; } }
-    // skip()/checkSize() at the end: exactly the remaining bytes can be skipped, one more cannot
-    if (d.pos() == pos) { size_t rest = (size_t)cap - pos; Guard g("Deserializer.skip", want.data(), (size_t)cap, cap);
+      if (d.pos() != pos) { viol("deserializer-pos-wrong", fstr); alive = false; break; } }
+    // at the end: hostile requests again, then exactly the remaining bytes can be skipped, one more cannot
+    if (alive && d.pos() == pos && des_probe(d, in.p, (size_t)cap, pos, ss)) { size_t rest = (size_t)cap - pos; Guard g("Deserializer.skip", want.data(), (size_t)cap, cap);
       bool c1 = d.checkSize(rest), c2 = d.checkSize(rest + 1); bool s2 = d.skip(rest + 1); bool s1 = d.skip(rest);
       if (!c1 || c2 || s2 || !s1 || d.pos() != (size_t)cap) viol("deserializer-skip-bounds", ss + " size=" + std::to_string(cap) + " rest=" + std::to_string(rest)); }
   }
 }
+static Field make_field(int kind, int i, int vs) {
+  Field f; f.kind = kind; const size_t w = f.width(); const uint64_t mask = w >= 8 ? ~0ull : w ? ((1ull << (8 * w)) - 1) : 0; uint8_t b = (uint8_t)(0x81 + i * 0x10);
+  switch (vs) {
+    case 0: f.v = 0; for (size_t j = 8 - (w ? w : 8); j < 8; j++) f.v = (f.v << 8) | (uint8_t)(b + j); break;   // distinct bytes, top bit set (negative / NaN-free patterns)
+    case 1: f.v = 0; break;
+    case 2: f.v = ~0ull; break;                                                       // -1, NaN with full payload
+    case 3: f.v = w ? 1ull << (8 * w - 1) : 0; break;                                 // MIN, -0.0
+    default: f.v = w ? (1ull << (8 * w - 1)) - 1 : 0; break; }                        // MAX, NaN 0x7FFF...
+  f.v &= mask;
+  if (kind == FBLOB) { size_t bl = vs == 0 ? 3 : vs == 1 ? 0 : vs == 2 ? 1 : 2; for (size_t j = 0; j < bl; j++) f.blob.push_back((uint8_t)(0xA1 + i * 0x10 + j)); }
+  return f; }
 void sweep_ser() {
-  // every sequence of 0..4 fields over {u8,u16,u32,u64,blob} (781) x endian{big,little} x value set{distinct bytes with high bits, all zero,
-  // all ones} x blob length{3,0,1} (by value set) x api{append/fetch, appendPOD/fetchPOD/fetchNoCopy, operator<< >>}   [thorough: 0..6 fields = 19 531 sequences]
-  int maxf = thorough() ? 6 : 4; long nseq = 0;
-  for (int nf = 0; nf <= maxf; nf++) { long cnt = 1; for (int i = 0; i < nf; i++) cnt *= NF;
-    for (long code = 0; code < cnt && !out_of_time(); code++) { if ((int)(nseq++ % g_nparts) != g_part) continue;
-      for (int vs = 0; vs < 3; vs++) for (int big = 0; big < 2; big++) for (int api = 0; api < 3; api++) {
-        std::vector<Field> fs; long c = code;
-        for (int i = 0; i < nf; i++) { Field f; f.kind = (int)(c % NF); c /= NF; uint8_t b = (uint8_t)(0x81 + i * 0x10);
-          if (vs == 0) { f.v = 0; for (int j = 0; j < 8; j++) f.v = (f.v << 8) | (uint8_t)(b + j); if (f.kind == F8) f.v &= 0xFF; if (f.kind == F16) f.v &= 0xFFFF; if (f.kind == F32) f.v &= 0xFFFFFFFFu; }
-          else f.v = vs == 1 ? 0 : (f.kind == F8 ? 0xFF : f.kind == F16 ? 0xFFFF : f.kind == F32 ? 0xFFFFFFFFull : ~0ull);
-          if (f.kind == FBLOB) { size_t bl = vs == 0 ? 3 : vs == 1 ? 0 : 1; for (size_t j = 0; j < bl; j++) f.blob.push_back((uint8_t)(0xA1 + i * 0x10 + j)); }
-          fs.push_back(f); }
-        ser_case(fs, big != 0, vs, api);
-        if (nf == 3 && code == 38 && vs == 0 && api == 0) sample("serializer " + seq_str(fs, big != 0, vs, api) + " raw caps{exact,exact-1,0} + vector + deserializer sizes{exact,exact-1,0}");
-      } } }
+  g_ser_huge = getenv("C19_SER_HUGE_APPEND") && atoi(getenv("C19_SER_HUGE_APPEND")) > 0;
+  // (A) every sequence of 0..4 items over {u8,u16,u32,u64,blob,SWITCH} (1555) x construction{big,little,no endian argument} x value set{distinct bytes with
+  //     high bits, all zero, all ones} x blob length{3,0,1} (by value set) x api{append/fetch, appendPOD/fetchPOD/fetchNoCopy, operator<< >>}   [thorough: 0..6 items]
+  // (B) every sequence of 0..3 items over all 12 kinds that contains a signed/float/double item x construction x 5 value sets (also MIN/MAX) x stream API   [thorough: 0..4]
+  long nseq = 0;
+  for (int phase = 0; phase < 2; phase++) { const int nk = phase ? NF_ALL : NF_BASE, maxf = phase ? (thorough() ? 4 : 3) : (thorough() ? 6 : 4), nvs = phase ? 5 : 3;
+    for (int nf = 0; nf <= maxf; nf++) { long cnt = 1; for (int i = 0; i < nf; i++) cnt *= nk;
+      for (long code = 0; code < cnt && !out_of_time(); code++) {
+        bool special = false; { long c = code; for (int i = 0; i < nf; i++) { if (c % nk >= NF_BASE) special = true; c /= nk; } }
+        if (phase && !special) continue;
+        if ((int)(nseq++ % g_nparts) != g_part) continue;
+        for (int vs = 0; vs < nvs; vs++) for (int cfg = 0; cfg < 3; cfg++) for (int api = phase ? 2 : 0; api < 3; api++) {
+          std::vector<Field> fs; long c = code;
+          for (int i = 0; i < nf; i++) { fs.push_back(make_field((int)(c % nk), i, vs)); c /= nk; }
+          ser_case(fs, cfg, vs, api);
+          if (phase == 0 && nf == 3 && code == 38 && vs == 0 && api == 0 && cfg == 0) sample("serializer " + seq_str(fs, cfg, vs, api) + " raw caps{exact,exact-1,0} + vector + deserializer sizes{exact,exact-1,0}, hostile requests + set_pos at every position");
+          if (phase == 1 && nf == 3 && code == 6 + 12 * 5 + 144 * 10 && vs == 2 && cfg == 2) sample("serializer " + seq_str(fs, cfg, vs, api));
+        } } } }
 }
-
